@@ -1482,6 +1482,11 @@ class Exec:
                     return
                 yield ValMethod(r, attr), st
                 return
+            # class-level constant (e.g. HaversineRoadNetwork._AVG_SPEED_KMPH)
+            for n in self.repo.mro(base):
+                if attr in self.repo.classes[n].class_consts:
+                    yield from self.expr(self.repo.classes[n].class_consts[attr], {"__module__": self.repo.classes[n].path}, st)
+                    return
             # annotated attribute on the interface class
             for n in self.repo.mro(base):
                 for fn_, ann, _ in self.repo.classes[n].own_fields:
